@@ -118,6 +118,11 @@ def explicit_cases(scheme, tier, seed):
             cfg.update(param_B=1, param_b=bb, param_identifier_size=2)
             for prof in ([254], [255], [256], [257], [130, 126], [128, 128], [200, 100]):
                 yield ("index_width_boundary", explicit_case(scheme, cfg, prof, seed))
+    if scheme == "CGKO06.SSE2":
+        # one keyword in more than 256 documents (the per-document counter of the PRP input needs a second byte)
+        cfg = small_config(scheme, 0)
+        c = explicit_case(scheme, cfg, [300, 2], seed)
+        yield ("sse2_counter_beyond_one_byte", c)
     # the documented default configuration at its own boundaries
     dcfg = S.default_config(scheme)
     dprofs = [[1], [2], [64], [65], [63, 65, 1], [128], [129, 1]]
